@@ -11,6 +11,7 @@ import os
 import common
 from common import driver, sx, parse_sx
 from props import c29_real as R
+from props import c29_hist as H
 
 MODES = {"multiple": 0, "single": 1}
 K_REJECT = "single-identical-kernel-rejected"
@@ -319,6 +320,40 @@ def judge(chk, state, name, runs, fs0, sched, fresh, gran, obs, mline):
                        "model_agrees": agreed})
 
 
+def history(chk, state, name, calls):
+    """One sequential history of complete runs through psyclone.generator.generate (one process)."""
+    obs = H.run_history(calls)
+    fails = H.history_failures(calls, obs)
+    lines, index = H.model_lines(calls)
+    outs = driver("C29", lines)
+    diffs = []
+    for line, (k, lab, sel) in zip(outs, index):
+        mv, rv = H.model_view(line), H.real_view(calls, obs, k, lab, sel)
+        if list(mv) != list(rv):
+            diffs.append({"after_call": k - 1, "dir": lab, "model": mv, "real": rv})
+    agreed = not diffs
+    chk.case({"history": calls}, nontrivial=len(calls) >= 2, agreed=agreed)
+    state["dist"]["history:" + name] = state["dist"].get("history:" + name, 0) + 1
+    state["gran"]["history-calls"] = state["gran"].get("history-calls", 0) + len(calls)
+    for o in obs:
+        key = "generate:" + ("ok" if o["error"] is None else o["error"][0])
+        state["outcomes"][key] = state["outcomes"].get(key, 0) + 1
+    if not agreed:
+        state["disagree"] += 1
+        if state["disagree"] <= 3:
+            chk.correspondence_broken("a history of generate() calls differs from the model run sequentially "
+                                      "with the requested scheme per run", {"scenario": name, "calls": calls},
+                                      diffs[0]["model"], diffs[0]["real"])
+    if fails and state["violations"] < 3:
+        state["violations"] += 1
+        brief = [{"error": o["error"], "new": o["new"], "use": o["use"]} for o in obs]
+        chk.violation({"kind": "failing-input", "family": "history", "scenario": name, "calls": calls,
+                       "observed": {"failures": fails, "per_call": brief},
+                       "expected": "after every generate() call every clause of C29 holds for the scheme, output "
+                                   "directory and API that call REQUESTED (see failures[].clause)",
+                       "model_agrees": agreed})
+
+
 def schedules(runs, fs0, gran):
     line = driver("C29", [enum_line(gran, runs, fs0)])[0]
     return [list(s) if isinstance(s, list) else [s] for s in parse_sx(line)]
@@ -326,7 +361,8 @@ def schedules(runs, fs0, gran):
 
 def run(chk):
     thorough = chk.tier == "thorough"
-    chk.cov["rule"] = ("experiment = (2-3 runs with scheme/module/kernel version, initial directory, schedule); "
+    chk.cov["rule"] = ("experiment = (2-3 runs with scheme/module/kernel version, initial directory, schedule) or a history "
+                       "of 2-5 complete generate() calls (module, script, scheme, output directory) in one process; "
                        "non-trivial = at least two runs and the schedule interleaves at least two of them; "
                        "distinct by canonical JSON")
     chk.assumptions += [
@@ -336,6 +372,10 @@ def run(chk):
         "threads of one process stand for separate PSyclone processes: rename_and_write shares no Python state "
         "between runs except Config, which the harness sets per run before every step",
     ]
+    chk.assumptions += [
+        "that a run USES the scheme / output directory / API it requested (Config is a process-wide singleton) is not "
+        "a Lean theorem: it is checked end-to-end by the history family (sequences of psyclone.generator.generate "
+        "calls in one process, compared with the model run with the requested scheme per run)"]
     chk.cov["trusted_base"] = [
         "Lean 4.33.0 kernel", "axioms propext/Classical.choice/Quot.sound only (audited)",
         "harness/props/c29.py + c29_real.py (scheduler, canonicalisation, property evaluation)",
@@ -353,7 +393,17 @@ def run(chk):
         # corpus of past failures first
         for path in sorted(glob.glob(os.path.join(common.ROOT, "corpus", "C29", "*.json"))):
             c = json.load(open(path))
+            if "calls" in c:
+                continue        # a history, see below
             one(chk, pool, state, "corpus:" + os.path.basename(path), c["runs"], c["fs0"], c["sched"])
+        # histories of complete runs through generate() in one process (Config singleton carried over)
+        for path in sorted(glob.glob(os.path.join(common.ROOT, "corpus", "C29", "hist-*.json"))):
+            history(chk, state, "corpus:" + os.path.basename(path), json.load(open(path))["calls"])
+        hists = list(H.FIXED) + [H.random_history(rng) for _ in range(12 if thorough else 3)]
+        if thorough:
+            hists += H.scheme_orders(2) + H.scheme_orders(3)
+        for name, calls in hists:
+            history(chk, state, name, calls)
         # 2 runs, every atomic step a scheduling point, all interleavings
         for name, runs, fs0 in CORE2:
             for sched in schedules(runs, fs0, 0):
@@ -417,10 +467,20 @@ def run(chk):
 
 
 def replay(payload):
-    if "runs" not in payload:
+    if "runs" not in payload and "calls" not in payload:
         print("nothing to replay: the file records a broken proof obligation / correspondence:")
         print(json.dumps(payload.get("broken", payload), indent=1)[:3000])
         return 1
+    if "calls" in payload:
+        obs = H.run_history(payload["calls"])
+        fails = H.history_failures(payload["calls"], obs)
+        for c, o in zip(payload["calls"], obs):
+            print("call:", c, "\n   ->", "ok" if o["error"] is None else o["error"], "new files:", o["new"],
+                  "PSy layer uses:", o["use"])
+        print("property:", json.dumps(fails) if fails else "holds")
+        want = {f["clause"] for f in payload.get("observed", {}).get("failures", [])}
+        got = {f["clause"] for f in fails}
+        return 1 if (got & want if want else got) else 0
     R.hooks()
     pool = R.Pool()
     try:
